@@ -32,7 +32,7 @@ func main() {
 	}
 	debug.SetGCPercent(400)
 	cs := corpus()
-	n := f.N(20000, 600000)
+	n := f.N(20000, 150000)
 	dump := os.Getenv("VM_DUMP") != ""
 	dumpFaults = os.Getenv("VM_FAULTS") != ""
 	for k := 0; k < n; k++ {
